@@ -310,6 +310,8 @@ fn main() {
                         Fl::Pausable => &["mint", "mint", "transfer", "transfer", "transfer_from", "approve", "burn", "burn_from", "pause", "unpause", "advance"],
                         Fl::Capped => &["mint", "mint", "mint", "transfer", "transfer", "transfer_from", "approve", "advance"],
                     };
+                    // regime O: stay on the lattice (7 units is the largest multiple of 2^124 below i128::MAX)
+                    let amt = if regime == "O" { amt.min(7) } else { amt };
                     let kind = *pick(&mut r, kinds);
                     // nothing to spend yet: set an allowance up instead
                     let kind = if (kind == "transfer_from" || kind == "burn_from") && pairs.is_empty() && r.gen_bool(0.7) { "approve" } else { kind };
@@ -318,7 +320,8 @@ fn main() {
                     let (from, sp, amt) = if (kind == "transfer_from" || kind == "burn_from") && !pairs.is_empty() && r.gen_bool(0.75) {
                         let (o, s2, a) = *pick(&mut r, &pairs);
                         let cap = a.min((*bals.get(o).unwrap_or(&0)).max(1));
-                        (o, s2, match r.gen_range(0..8) { 0 => a, 1 => a + 1, 2 => 0, _ => r.gen_range(1..=cap.max(1)) })
+                        let v = match r.gen_range(0..8) { 0 => a, 1 => a + 1, 2 => 0, _ => r.gen_range(1..=cap.max(1)) };
+                        (o, s2, if regime == "O" { v.min(7) } else { v })
                     } else {
                         (from, sp, amt)
                     };
@@ -339,6 +342,7 @@ fn main() {
                             if good { auth.push(from.into()); }
                             let du = *pick(&mut r, &[-1i64, 0, 0, 1, 1, 2, 3, 6, 6, 10, 10, 15, 15, (MAX_TTL - 1) as i64, (MAX_TTL - 1) as i64, MAX_TTL as i64]);
                             let amt = if r.gen_bool(0.6) { amt.max(1) } else { amt };
+                            let amt = if regime == "O" { amt.min(7) } else { amt };
                             json!({"op": "approve", "from": from, "to": "none", "sp": sp, "amt": amt, "until": (now + k + du).max(0), "auth": auth, "k": k})
                         }
                         "burn" => {
